@@ -490,7 +490,7 @@ func (d *Driver) handleGo(args []string) (quit bool) {
 		case "binc":
 			tc.binc = parseInt64(args[i+1])
 		case "depth":
-			depth := Depth(parseInt(args[i+1]))
+			depth := Depth(Clamp(parseInt(args[i+1]), 1, MaxPlies))
 			opts = append(opts, search.WithDepth(depth))
 		case "nodes":
 			nodes := parseInt(args[i+1])
